@@ -32,6 +32,7 @@ from .introspect import (
     get_assign_targets,
     python_builtin_names,
     visit_inner_scope,
+    own_parameter_names,
     function_given_through_module,
     getsource_class,
 )
@@ -188,6 +189,8 @@ class InspectFunctionIndirect(object):
         local_vars = set(
             InspectFunction.get_local_vars(body, dummy_arg_ctx, fun_path) + arg_names
         )
+        # (the methods of a class come without arg_names: see InspectFunction.inspect_fun)
+        local_vars |= set(LocalVar(n_) for n_ in own_parameter_names(node))
         # _logger.debug(f"inspect_fun: %s local_vars: %s", fun_path, local_vars)
         vdeps = ExternalVarsVisitor(mod, gctx, local_vars)
         for n in body:
